@@ -150,9 +150,9 @@ struct Monitor {
     published: BTreeMap<usize, usize>,
     world_stops: u64,
     scans: u64,
-    /// stop requests that have reached every registered thread and have not
-    /// been lifted yet
-    stops_in_force: u64,
+    /// stop requests that have reached every registered thread of a runtime
+    /// (identified by its thread list) and have not been lifted yet
+    stops_in_force: BTreeMap<usize, u64>,
     /// child most recently spawned by each thread, and threads that the parent
     /// has entered into the runtime's thread list
     last_spawned: BTreeMap<usize, usize>,
@@ -255,7 +255,7 @@ fn h_point(site: u32, arg: usize) {
         }
         vs::SP_EXIT | vs::ES_EXIT => {
             // from here on the thread runs script code again
-            let (stops, registered) = monitor(|m| (m.stops_in_force, me == 0 || m.registered.contains(&me)));
+            let (stops, registered) = monitor(|m| (m.stops_in_force.get(&arg).copied().unwrap_or(0), me == 0 || m.registered.contains(&me)));
             if stops > 0 && !registered {
                 report::violation(
                     "C15/unregistered-thread-ran-during-stop",
@@ -305,11 +305,14 @@ fn h_point(site: u32, arg: usize) {
         }
         vs::STOP_END => {
             // every registered thread has been told to pause
-            monitor(|m| m.stops_in_force += 1);
+            monitor(|m| *m.stops_in_force.entry(arg).or_insert(0) += 1);
             sched::yield_point_ex(site, 0, false);
         }
         vs::RESUME_BEGIN => {
-            monitor(|m| m.stops_in_force = m.stops_in_force.saturating_sub(1));
+            monitor(|m| {
+                let e = m.stops_in_force.entry(arg).or_insert(0);
+                *e = e.saturating_sub(1);
+            });
             sched::yield_point_ex(site, 0, false);
         }
         vs::STOP_BEGIN | vs::RESUME_END => {
